@@ -5,6 +5,7 @@ import (
 	"io"
 	"net"
 	"sync"
+	"time"
 
 	ws "github.com/gorilla/websocket"
 	"github.com/zishang520/engine.io-go-parser/packet"
@@ -17,6 +18,8 @@ var ws_log = log.NewLog("engine:ws")
 
 type websocket struct {
 	Transport
+
+	closeTimeout time.Duration
 
 	socket *types.WebSocketConn
 	mu     sync.Mutex
@@ -41,6 +44,8 @@ func NewWebSocket(ctx *types.HttpContext) Websocket {
 
 func (w *websocket) Construct(ctx *types.HttpContext) {
 	w.Transport.Construct(ctx)
+
+	w.closeTimeout = 30 * 1000 * time.Millisecond
 
 	w.socket = ctx.Websocket
 
@@ -232,8 +237,29 @@ func (w *websocket) write(data types.BufferInterface, compress bool) {
 // Closes the transport.
 func (w *websocket) DoClose(fn types.Callable) {
 	ws_log.Debug(`closing`)
-	defer w.socket.Close()
-	if fn != nil {
-		fn()
+
+	var once sync.Once
+	closeNow := func() {
+		once.Do(func() {
+			defer w.socket.Close()
+			if fn != nil {
+				fn()
+			}
+		})
 	}
+
+	if w.Writable() || w.Discarded() {
+		closeNow()
+		return
+	}
+
+	// A batch handed to Send is still being written by its goroutine: closing
+	// the connection now would drop it. Close once it has drained, or after
+	// the close timeout if the peer has stopped reading.
+	ws_log.Debug("transport not writable - closing after the pending batch")
+	closeTimeoutTimer := utils.SetTimeout(closeNow, w.closeTimeout)
+	w.Once("drain", func(...any) {
+		utils.ClearTimeout(closeTimeoutTimer)
+		closeNow()
+	})
 }
